@@ -12,7 +12,10 @@ MCConfigsSmall ==
     [ck : {"int"}, cv : {-2, -1, 1, 2}, pk : {"int"}, pv : {0, 2}, ws : {0}, we : {0}, cm : {"expr"}]
       \cup [ck : {"num"}, cv : {0, 2}, pk : {"num"}, pv : {0}, ws : {0}, we : {0}, cm : {"none"}]     \* numbers, also zero
       \cup {[ck |-> "int", cv |-> -1, pk |-> "int", pv |-> 1, ws |-> 2, we |-> 3, cm |-> "blank"],
-            [ck |-> "bad", cv |-> 0, pk |-> "absent", pv |-> 0, ws |-> 0, we |-> 0, cm |-> "none"]}
+            [ck |-> "bad", cv |-> 0, pk |-> "absent", pv |-> 0, ws |-> 0, we |-> 0, cm |-> "none"],
+            [ck |-> "absent", cv |-> 0, pk |-> "bad", pv |-> 0, ws |-> 0, we |-> 0, cm |-> "none"],
+            [ck |-> "bad", cv |-> 0, pk |-> "bad", pv |-> 0, ws |-> 0, we |-> 0, cm |-> "none"],
+            [ck |-> "int", cv |-> -1, pk |-> "bad", pv |-> 0, ws |-> 0, we |-> 0, cm |-> "none"]}
 
 (* condition-heavy settings (C10) *)
 MCConfigsCond ==
